@@ -1,0 +1,42 @@
+//go:build verif
+
+package encode
+
+// Thin wrappers around the unexported number codecs, compiled only with
+// -tags verif, for the verification harness in /verif (property C08).
+
+func VerifEncodeNatural(dst []byte, u uint32) []byte {
+	b := buffer(dst[:0])
+	b.encodeNatural(u)
+	return b
+}
+
+func VerifEncodeReal(dst []byte, f float32) []byte {
+	b := buffer(dst[:0])
+	b.encodeReal(f)
+	return b
+}
+
+func VerifEncodeCoordinate(dst []byte, f float32) []byte {
+	b := buffer(dst[:0])
+	b.encodeCoordinate(f)
+	return b
+}
+
+func VerifEncodeZeroToOne(dst []byte, f float32) []byte {
+	b := buffer(dst[:0])
+	b.encodeZeroToOne(f)
+	return b
+}
+
+func VerifEncodeAngle(dst []byte, f float32) []byte {
+	b := buffer(dst[:0])
+	b.encodeAngle(f)
+	return b
+}
+
+// VerifQuantize is Encoder.quantize for the given resolution mode.
+func VerifQuantize(f float32, highResolution bool) float32 {
+	e := Encoder{highResolutionCoordinates: highResolution}
+	return e.quantize(f)
+}
